@@ -260,6 +260,23 @@ Definition cache_task_init_resreq (ippvs plr ippl dra : bool) (keys : list posit
 Definition cache_task_best_effort (ippvs plr ippl dra : bool) (keys : list positive) (m : pod_meta) (p : pod) : bool :=
   is_empty 1 (cache_task_init_resreq ippvs plr ippl dra keys m p).
 
+(* error outcome of the volume lookups: when getPodCSIVolumes fails (a PVC is not
+   in the informer yet: pendingPVCError; an ephemeral volume's PVC is not owned by
+   the pod; ...) addPodCSIVolumesToTask returns BEFORE any AddScalar (event_handlers.go
+   91-95) and SchedulerCache.NewTaskInfo returns before recomputing BestEffort
+   (255-257): the TaskInfo is api.NewTaskInfo's, unchanged.  On pendingPVCError addPod
+   still adds that task to the ledgers (290-296).  [None] = error, [Some keys] = success. *)
+Definition cache_task_resreq_o (ippvs plr ippl dra : bool) (ko : option (list positive)) (m : pod_meta) (p : pod) : res :=
+  match ko with
+  | Some keys => cache_task_resreq ippvs plr ippl dra keys m p
+  | None => task_resreq ippvs plr ippl dra m p
+  end.
+Definition cache_task_best_effort_o (ippvs plr ippl dra : bool) (ko : option (list positive)) (m : pod_meta) (p : pod) : bool :=
+  match ko with
+  | Some keys => cache_task_best_effort ippvs plr ippl dra keys m p
+  | None => task_best_effort ippvs plr ippl dra m p
+  end.
+
 (* ================= upstream ================= *)
 
 (* PodResourcesOptions, the fields the scheduler sets; the others are at their
@@ -331,6 +348,15 @@ Definition k8s_finish (o : opts) (p : pod) (reqs : rl) : rl :=
 Definition k8s_pod_requests (o : opts) (p : pod) : rl := k8s_finish o p (k8s_aggregate o p).
 
 End Names.
+
+(* WHICH upstream computation applies WHERE:
+   - a pod already on a node (NodeInfo.Requested, what kubelet admission and the
+     fit plugin subtract from allocatable): PodInfo.CalculateResource, [opts_of];
+   - the pod being placed / admitted: noderesources computePodResourceRequest
+     (k8s.io/kubernetes@v1.36.1 .../noderesources/fit.go 321-327; kubelet reaches it
+     through lifecycle/predicate.go:436 -> AdmissionCheck -> Fits): PodRequests with
+     the status options OFF ("pod hasn't scheduled yet"), [opts_incoming]. *)
+Definition opts_incoming (plr dra : bool) : opts := mkOpts false false (negb plr) dra.
 
 (* the options CalculateResource derives from the four feature gates *)
 Definition opts_of (ippvs plr ippl dra : bool) : opts := mkOpts ippvs ippl (negb plr) dra.
